@@ -25,7 +25,7 @@ import (
 // Composition declares it - and controlled by the XR.
 //
 //gosym:harness
-//gosym:cover v1alpha1 v1beta1
+//gosym:cover v1alpha1 v1beta1 same-name
 func HarnessC19ComposedUsage() {
 	s := kube.New()
 	usageAPI := "apiextensions.crossplane.io/v1beta1"
@@ -36,6 +36,12 @@ func HarnessC19ComposedUsage() {
 		zz.Cover("v1beta1")
 	}
 	const usageKind, usageName = "Usage", zzXRName + "-usage"
+	// the using resource's name is its own business: it may equal the XR's
+	usingName := "user"
+	if zz.Bool("using.namedLikeTheXR") {
+		zz.Cover("same-name")
+		usingName = zzXRName
+	}
 	u := composed.New()
 	u.SetAPIVersion(usageAPI)
 	u.SetKind(usageKind)
@@ -44,7 +50,7 @@ func HarnessC19ComposedUsage() {
 	u.Object["spec"] = map[string]any{"reason": "old"}
 	u.SetOwnerReferences([]metav1.OwnerReference{
 		{APIVersion: "example.org/v1", Kind: "XR", Name: zzXRName, UID: zzXRUIDc, Controller: ptr.To(true), BlockOwnerDeletion: ptr.To(true)},
-		{APIVersion: "example.org/v1", Kind: "Using", Name: "user", UID: "uid-using"},
+		{APIVersion: "example.org/v1", Kind: "Using", Name: usingName, UID: "uid-using"},
 	})
 	s.Put(u)
 	xr := zzNewXRObject()
